@@ -1,24 +1,69 @@
-import H2T.Lemmas.FitsBlock
+import H2T.Lemmas.RenderFits
 
 /-! # C02 — no output line is wider than the requested width
 
-Property theorems only (helper lemmas live in `H2T/Lemmas`).  Status: **partial** — proved for the wrap layer
-(every white-space mode, tabs, padding, hard wrap) and for every table-free nested program; the table
-operations (`appendColumns`, `appendVertRow`), the footnote list and `compile_ok` (the programs `compile`
-emits satisfy `okOps`) are covered by the correspondence and the search oracle only.  The full statement is
-kept as `C02.lines_fit_full`. -/
+Property theorems only (helper lemmas live in `H2T/Lemmas`).  Status: **proved for the whole model** —
+`C02.lines_fit`: every line `renderTree` returns fits the requested width, for every render tree, configuration
+and width: wrapped text in every white-space mode (tabs, padding, hard wrap), prefixed blocks at any nesting depth,
+side-by-side table rows with border collapsing, stacked rows, column allocation, the footnote list, and the
+programs `compile` emits (`compile_wf`).  Two hypotheses remain, both necessary:
+* `DecoOk d` — within one ordered list no marker is wider than the wider of the first and last marker; proved for
+  the three built-in decorators and the whole custom family (`builtin_decorators_ok`), false for a decorator that
+  prints some middle number wider than both ends (the code then overflows too);
+* every character of a link target is no wider than the line — the unguarded statement `lines_fit_full` is
+  **refuted** by the known finding `C02-footnote-wide-char` (`lines_fit_full_refuted`), whose witness is replayed
+  against the implementation on every run. -/
 
 namespace H2T.C02
 
 /-- display width of a rendered line -/
 abbrev width (l : RLine) : Nat := rlw l
 
-/-- **Full statement** (not yet proved as a whole): whenever the model renders a tree with overflow off and
-    link wrapping on, every line fits the width. -/
+/-- **Unguarded statement**: whenever the model renders a tree with overflow off and link wrapping on, every line
+    fits the width.  Refuted below (a link target containing a character wider than the whole line). -/
 def lines_fit_full : Prop :=
   ∀ (cfg : Cfg) (d : Deco) (w : Nat) (tree : RNode) (ls : List RLine),
     cfg.overflow = false → cfg.wrapLinks = true →
     renderTree cfg d w tree = .ok ls → ∀ l ∈ ls, width l ≤ w
+
+/-- **C02** for the whole model. -/
+theorem lines_fit (cfg : Cfg) (d : Deco) (w : Nat) (tree : RNode) (ls : List RLine)
+    (hov : cfg.overflow = false) (hwl : cfg.wrapLinks = true) (hd : DecoOk d)
+    (hh : ∀ h ∈ nodeHrefs tree, ∀ c ∈ h, c.w ≤ w ∧ (c.ctrl = true → c.w = 0))
+    (h : renderTree cfg d w tree = .ok ls) : ∀ l ∈ ls, width l ≤ w :=
+  renderTree_lines_fit cfg d w tree ls hov hd (fun _ => ⟨hwl, hh⟩) h
+
+/-- the hypothesis on decorators holds for plain, rich, trivial and every member of the custom family -/
+theorem builtin_decorators_ok : DecoOk Deco.plain ∧ DecoOk Deco.rich ∧ DecoOk Deco.trivial ∧ ∀ f, DecoOk (Deco.ofFam f) :=
+  ⟨plain_ok, rich_ok, trivial_ok, fam_ok⟩
+
+/-- without footnotes neither link wrapping nor the link targets matter -/
+theorem lines_fit_no_footnotes (cfg : Cfg) (d : Deco) (w : Nat) (tree : RNode) (ls : List RLine)
+    (hov : cfg.overflow = false) (hd : DecoOk d) (hf : cfg.footnotes = false)
+    (h : renderTree cfg d w tree = .ok ls) : ∀ l ∈ ls, width l ≤ w :=
+  renderTree_lines_fit cfg d w tree ls hov hd (fun hfn => by simp [hf] at hfn) h
+
+/-- some returned line is wider than `w` -/
+def someLineWider (r : Except Err (List RLine)) (w : Nat) : Bool :=
+  match r with
+  | .ok ls => ls.any fun l => decide (width l > w)
+  | .error _ => false
+
+/-- the unguarded statement is false: `<a href="字">x</a>` at width 1 with footnotes — the footnote list is wrapped
+    per character and a character of width 2 is emitted on its own line -/
+theorem lines_fit_full_refuted : ¬ lines_fit_full := by
+  intro h
+  have hw : someLineWider (renderTree { footnotes := true } Deco.trivial 1
+      (.box {} (.link [⟨0x5b57, 2, false, false⟩]) [.text {} (strCh "x")])) 1 = true := by decide +kernel
+  cases hr : renderTree { footnotes := true } Deco.trivial 1
+      (.box {} (.link [⟨0x5b57, 2, false, false⟩]) [.text {} (strCh "x")]) with
+  | error e => rw [hr] at hw; simp [someLineWider] at hw
+  | ok ls =>
+    rw [hr] at hw
+    simp only [someLineWider, List.any_eq_true, decide_eq_true_eq] at hw
+    obtain ⟨l, hl, hgt⟩ := hw
+    have := h _ _ _ _ ls rfl rfl hr l hl
+    omega
 
 /-- Wrap layer: a `WrappedBlock` that satisfies its invariant (every block reachable from `WrappedBlock::new`
     by `add_text`/`add_element` calls does — `addText_inv`) only emits lines that fit its width. -/
@@ -79,5 +124,21 @@ example :
     okOps ops = true ∧
     ((runOps SubR.widthMinus {} Deco.plain { cur := { width := 8 } } ops).toOption.bind
       (fun t => t.cur.intoLines.toOption.map (·.map rlw))) = some [8, 5, 8, 5] := by decide
+
+/-- `lines_fit` is not vacuous: a document with a quote, an ordered list, a two-row table with a colspan cell and a
+    link renders at width 12 with footnotes, its hypotheses hold, and the widest line is exactly 12 -/
+example :
+    let tree : RNode := .box {} .container [
+      .box {} .quote [.box {} (.ol 9) [.box {} .li [.text {} (strCh "alpha beta")], .box {} .li [.text {} (strCh "gamma")]]],
+      .table {} [.row {} [.cell {} 1 [.text {} (strCh "aa")], .cell {} 1 [.box {} (.link (strCh "u")) [.text {} (strCh "bb")]]],
+                 .row {} [.cell {} 2 [.text {} (strCh "cccc dddd")]]] 2]
+    (∀ h ∈ nodeHrefs tree, ∀ c ∈ h, c.w ≤ 12 ∧ (c.ctrl = true → c.w = 0)) ∧
+    ((renderTree { footnotes := true } Deco.plain 12 tree).toOption.map fun ls => (ls.map width).foldl max 0) = some 12 := by
+  refine ⟨?_, by decide +kernel⟩
+  intro h hh c hc
+  have : h = strCh "u" := by simpa [nodeHrefs, listHrefs, rowsHrefs, cellsHrefs] using hh
+  subst this
+  have := strCh_ok "u" c hc
+  exact ⟨by omega, by simp [this.2]⟩
 
 end H2T.C02
